@@ -74,7 +74,18 @@ pub fn decode_calls(src: &mut Source) -> Box<dyn Case> {
     let np = src.range(2, 5);
     let mut pool: Vec<Vec<char>> = Vec::new();
     for _ in 0..np {
-        let v: Vec<char> = match src.weighted(&[4, 4, 3, 2, 2]) {
+        let v: Vec<char> = match src.weighted(&[4, 4, 3, 2, 2, 3]) {
+            5 if !pool.is_empty() => {
+                // an earlier entry with its last item dropped, or with one item typed onto it
+                let mut v = src.pick(&pool).clone();
+                if !v.is_empty() && src.chance(1, 2) {
+                    v.pop();
+                } else {
+                    let c = if !v.is_empty() && src.chance(1, 2) { v[src.below(v.len())] } else { sym(src.below(k)) };
+                    v.push(c);
+                }
+                v
+            }
             0 => vec![sym(src.below(k))],
             1 => (0..2).map(|_| sym(src.below(k))).collect(),
             2 => gen_seq(src, k),
@@ -91,7 +102,9 @@ pub fn decode_calls(src: &mut Source) -> Box<dyn Case> {
         pool.push(v);
     }
     let mut calls = Vec::new();
-    while calls.len() < 12 && (calls.len() < 3 || src.chance(5, 6)) {
+    // now and then a long session (buffers that grew get their chance to be given back)
+    let (cap, num) = if src.chance(1, 25) { (140, 40) } else { (12, 5) };
+    while calls.len() < cap && (calls.len() < 3 || src.chance(num, num + 1)) {
         calls.push((src.below(pool.len()), src.below(pool.len())));
     }
     Box::new(C17Calls { pool, calls })
